@@ -9,8 +9,10 @@ import (
 	"net/http"
 	"net/url"
 	"os"
+	"strconv"
 	"strings"
 	"testing"
+	"time"
 )
 
 func verifReplayInputs(t *testing.T) map[string]string {
@@ -97,6 +99,32 @@ func TestVerifReplayCanRedirectHost(t *testing.T) {
 		}
 	}
 	if !confirmed {
+		t.Logf("REPLAY-NOT-REPRODUCED")
+	}
+}
+
+// C04/C07: a signed storage record whose exp claim is in the past.
+func TestVerifReplayExpiredStorageRecord(t *testing.T) {
+	in := verifReplayInputs(t)
+	age, _ := strconv.ParseInt(in["seconds_past_expiry"], 10, 64)
+	if age <= 0 {
+		age = 10
+	}
+	state, passwdFile, err := setupValidRuntimeStateSigner(t)
+	if err != nil {
+		t.Fatal(err)
+	}
+	defer os.Remove(passwdFile.Name())
+	exp := time.Now().Unix() - age
+	tok, err := state.genNewSerializedStorageStringDataJWT("username", 1, "cached-hash", exp)
+	if err != nil {
+		t.Fatal(err)
+	}
+	rec, err := state.getStorageDataFromStorageStringDataJWT(tok)
+	t.Logf("record signed by this server, exp=%d (now=%d) -> err=%v subject=%q", exp, time.Now().Unix(), err, rec.Subject)
+	if err == nil {
+		t.Logf("REPLAY-CONFIRMED: an expired signed storage record is accepted")
+	} else {
 		t.Logf("REPLAY-NOT-REPRODUCED")
 	}
 }
